@@ -245,6 +245,12 @@ class QFDriver:
             self.call(o.merge, second)
             self.model |= set(hs)
             ctx.check(self._o("set") or legit, sorted(second.get_hashes()) == snap2, "merge modified its argument")
+            # the argument stays in use afterwards: modifying it must not reach the receiver (checked by the verify below)
+            if hs:
+                second.remove_alt(hs[0])
+            second.add_alt(0x5A5A5A5A)
+            second.add_alt(self.H(0, 0) ^ 0x00FFFF00)
+            self.feats.add("merge_then_argument_modified")
             if len(self.model) >= 4 and hs:
                 self.feats.add("merge_with>=4")
             ctx.op("merge", [hex(x) for x in hs], q2)
